@@ -76,6 +76,8 @@ type Obs struct {
 	Garbage bool // the endpoint wrote bytes that are not whole frames
 	Panic   string
 	Hang    bool
+	// CleanAfterErr: after a Read of a message had failed, a further Read of the same reader reported a clean end / more bytes
+	CleanAfterErr string
 }
 
 func classify(err error) string {
@@ -146,6 +148,21 @@ func runReadCase(c *ReadCase) *Obs {
 				}
 				if err != nil {
 					obs.Evs = append(obs.Evs, ObsEv{Kind: "partial", Typ: int(typ), Data: data, Class: classify(err), Err: trunc(err.Error(), 160)})
+					// a stream that was cut inside this message (C04): a caller that reads the same message again after the failure
+					// must not be told that it ended cleanly. (Not after a protocol violation: there the rest of the message may
+					// well follow in the stream, and the properties speak about the read that fails.)
+					for k := 0; k < 3 && strings.HasPrefix(c.Exp.Why, "cut"); k++ {
+						n2, err2 := r.Read(make([]byte, sz))
+						wd.tick()
+
+						if err2 == io.EOF {
+							obs.CleanAfterErr = fmt.Sprintf("read %d after the failed one (%s) returned %d bytes and io.EOF; %d bytes of the message had been delivered", k+1, trunc(err.Error(), 80), n2, len(data))
+							break
+						}
+						if err2 == nil && n2 == 0 {
+							break
+						}
+					}
 					return
 				}
 			}
@@ -205,6 +222,9 @@ func checkExpect(c *ReadCase, o *Obs) (shape, what string) {
 	}
 	if o.Garbage {
 		return "garbage-written", "the endpoint wrote bytes that do not form whole frames"
+	}
+	if o.CleanAfterErr != "" && c.Exp.InMsg {
+		return "clean-end-after-failed-read", o.CleanAfterErr + " (" + c.Exp.Why + ")"
 	}
 	var msgs []ObsEv
 	var last *ObsEv
